@@ -56,7 +56,9 @@ func (fr *Frame) assumeAxioms(st *State) {
 		}
 		// only include axioms whose function symbols the unit can see is unknowable here; they are cheap
 		body := Implies(And(hyps...), And(concl...))
-		u.assume(True, Forall(vars, body))
+		t := Forall(vars, body)
+		u.axiomFacts = append(u.axiomFacts, t.S)
+		u.usesQuant = true
 		u.trustedUsed["axiom "+ax.Name+" ("+strings.TrimSpace(ax.Pkg)+")"]++
 	}
 }
